@@ -60,6 +60,25 @@ def roundtrippable(v):
 def clean_zone(rng):
     """a model zone whose every record round-trips at record level"""
     mz = GZ.gen_zone(rng, plain=rng.random() < 0.6, exotic_names=rng.random() < 0.4, size=rng.choice((2, 5, 10)))
+    if rng.random() < 0.5:
+        # a signed-looking zone: signature sets next to some of the data, often with two or three signatures covering the same
+        # type at one owner (two keys, a key roll-over); RRSIG(CNAME) stays out (it is CNAME-like for the node rule)
+        from vlib.gen import rdata as _GR
+        import struct as _struct
+
+        for exact in list(mz.names()):
+            for (rdtype, covers), (ttl, vals) in list(mz.sets(exact).items()):
+                if rdtype in (46, 5, 6) or rng.random() < 0.6:
+                    continue
+                try:
+                    base = GZ.simple_val(rng, "RRSIG", mz.origin, True)
+                except Exception:
+                    continue
+                for n in range(rng.choice((1, 2, 2, 3))):
+                    kt = (base.args[6] + 7 * n + 1) % 65536
+                    args = [rdtype] + list(base.args[1:6]) + [kt] + list(base.args[7:])
+                    parts = [_struct.pack("!H", rdtype)] + list(base.parts[1:6]) + [_struct.pack("!H", kt)] + list(base.parts[7:])
+                    mz.add(exact, _GR.Val(1, 46, "RRSIG", args, parts, base.tags), ttl)
     for k, (exact, sets) in list(mz.nodes.items()):
         for key, (ttl, vals) in list(sets.items()):
             good = [v for v in vals if roundtrippable(v)]
